@@ -107,6 +107,19 @@ claim("C07",
       "Lean 4 proof (line-partition and fixed-point theorems) + model/implementation correspondence",
       "DESIGN.md §7 C07")
 
+claim("C12",
+      "Partial by nature: theorems carry totality and output shape of everything flowmark owns — every model function is "
+      "a total Lean definition (no `partial`), ENDS_NL_partial (the rendered document is empty or ends with a newline, "
+      "for every tree/wrapper/mode, by mutual functional induction; ENDS_NL_false witness for the empty-item case), "
+      "NO_ASSERT / NO_ASSERT_smartquotes (the length assertion of rewrite_text_across_inlines cannot fire), CODE_BLANK "
+      "(a blank code line is emitted without trailing whitespace). The runtime part — no exception, no hang, modest "
+      "growth — cannot be exhibited by a Lean model and is monitored: malformed stream and structured documents × random "
+      "option values (any width ∈ ℤ) under a CPU watchdog, well-formedness of the result, pumped families with a fitted "
+      "growth exponent.",
+      COMMON_NOTE + "Exceptions inside Marko, regex backtracking and wall-clock behaviour are monitored, not proved. One third-party "
+      "finding is recorded (exponential time in block-quote nesting depth inside Marko).",
+      "Lean 4 proof (totality, output-shape invariants by functional induction) + runtime monitor (watchdog, pumped families)",
+      "DESIGN.md §7 C12")
 claim("C15",
       "Theorems over option-plumbing tables that the translator regenerates from the ast of cli.py / reformat_api.py "
       "on every run: PASS_THROUGH (every formatting option reaches reformat_text / fill_markdown / fill_text as the "
